@@ -27,7 +27,7 @@ func runC05_7(c *core.Ctx) {
 	}
 	isSpawn := func(f *fn, call *ast.CallExpr) bool {
 		cf := flow.CalleeFunc(f.Info, call)
-		return cf != nil && cf.Pkg() != nil && cf.Name() == "Go" && strings.HasSuffix(cf.Pkg().Path(), "errgroup")
+		return cf != nil && cf.Pkg() != nil && nameOf(cf) == "Go" && strings.HasSuffix(cf.Pkg().Path(), "errgroup")
 	}
 	containsSpawn := func(f *fn, n ast.Node) bool {
 		found := false
@@ -41,7 +41,7 @@ func runC05_7(c *core.Ctx) {
 	}
 	isLBRegister := func(f *fn, call *ast.CallExpr) bool {
 		cf := flow.CalleeFunc(f.Info, call)
-		if cf == nil || cf.Name() != "register" {
+		if cf == nil || nameOf(cf) != "register" {
 			return false
 		}
 		sig, _ := cf.Type().(*types.Signature)
@@ -98,7 +98,7 @@ func runC05_7(c *core.Ctx) {
 							continue
 						}
 						if t := f.Info.TypeOf(sel.X); t != nil && isNamedOrPtr(t, engineT) {
-							if fl.Name() == "ingress" {
+							if nameOf(fl) == "ingress" {
 								continue // table exception, see rule text
 							}
 							bads = append(bads, bad{y.Pos(), "engine." + fl.Name() + " is written after a loop goroutine may already be running"})
